@@ -68,8 +68,8 @@ func checkC06(c *Ctx) {
 		})
 	}
 	c.R.Extra["comma_ok_assertions_on_peer_data"] = nOK
-	if nOK < 20 || all < 2 {
-		c.R.Break("R-assert saw %d comma-ok and %d single-value assertions on peer data (expected >= 20 and >= 2)", nOK, all)
+	if nOK < 10 || all < 1 {
+		c.R.Break("R-assert saw %d comma-ok and %d single-value assertions on peer data (expected >= 10 and >= 1)", nOK, all)
 	}
 
 	// ---- R-panic-sites: explicit panics
@@ -155,7 +155,7 @@ func checkC06(c *Ctx) {
 	if len(seenLeak) == 0 {
 		c.R.Hold("R-lock-balanced", "every acquisition is released on all paths", "", sprintf("%d lock acquisitions on server paths examined", nAcq))
 	}
-	if nAcq < 30 {
+	if nAcq < 15 {
 		c.R.Break("R-lock-balanced examined only %d acquisitions", nAcq)
 	}
 
